@@ -45,10 +45,72 @@ def make(rng, shape=(3, 4), dtype=np.float64, density=0.5):
     return d
 
 
-def as_format(d, fmt):
+STORED_ROUTES = {}  # route -> [operands built, operands that really carry a stored fill value]
+
+
+def store_fill(d, rng, fill=None, route=None):
+    """A COO equal to the dense `d` (fill value `fill`, default 0) that EXPLICITLY STORES elements equal to its fill value, built
+    by one of the constructor routes that allow it:
+
+    * 'prune=False'     COO(coords, data, prune=False) with fill-valued entries in `data`
+    * 'duplicates'      duplicate coordinates whose values sum to the fill value (the constructor sums them and keeps the sum)
+    * 'scipy'           a scipy CSR matrix with explicit zeros (2-d, zero fill)
+    * 'gcxs-triple'     GCXS((data, indices, indptr)) with explicit zeros, converted (2-d, zero fill)
+
+    Arrays made by from_numpy / element-wise operations / reductions are pruned and never look like this; a spelling that reads
+    `coords`/`data` directly and one that goes through a pruning path differ exactly on such operands."""
+    import scipy.sparse as sp
     import sparse
 
-    c = sparse.COO.from_numpy(d)
+    d = np.asarray(d)
+    fv = d.dtype.type(0) if fill is None else d.dtype.type(fill)
+    is_fill = np.isnan(d) if (d.dtype.kind == "f" and np.isnan(fv)) else (d == fv)
+    kw = {} if fill is None else {"fill_value": fv}
+    holes = np.argwhere(is_fill)
+    if len(holes) == 0 or d.ndim == 0:
+        return sparse.COO.from_numpy(d, **kw), "none"
+    take = holes[rng.permutation(len(holes))[: max(1, int(rng.integers(1, len(holes) + 1)) // 2 + 1)]]
+    routes = ["prune=False"]
+    if d.dtype.kind in "fi" and np.isfinite(np.asarray(fv, dtype=np.float64)):
+        routes.append("duplicates")
+    if d.ndim == 2 and fill is None and d.dtype.kind in "fi":
+        routes += ["scipy", "gcxs-triple"]
+    route = route if route in routes else routes[int(rng.integers(0, len(routes)))]
+    stored = np.argwhere(~is_fill)
+    if route in ("scipy", "gcxs-triple"):
+        mask = ~is_fill
+        mask[tuple(take.T)] = True
+        rows, cols = np.nonzero(mask)
+        indptr = np.concatenate([[0], np.cumsum(np.bincount(rows, minlength=d.shape[0]))])
+        data = d[rows, cols]
+        if route == "scipy":
+            c = sparse.COO.from_scipy_sparse(sp.csr_matrix((data, cols, indptr), shape=d.shape))
+        else:
+            c = sparse.GCXS((data, cols, indptr), shape=d.shape, compressed_axes=(0,)).tocoo()
+    elif route == "duplicates":
+        k = d.dtype.type(1)
+        coords = np.concatenate([stored, take, take]).T
+        data = np.concatenate([d[tuple(stored.T)], np.full(len(take), fv + k, dtype=d.dtype), np.full(len(take), -k, dtype=d.dtype)])
+        c = sparse.COO(coords, data, shape=d.shape, **kw)
+    else:
+        coords = np.concatenate([stored, take]).T
+        data = np.concatenate([d[tuple(stored.T)], np.full(len(take), fv, dtype=d.dtype)])
+        order = rng.permutation(coords.shape[1])
+        c = sparse.COO(coords[:, order], data[order], shape=d.shape, prune=False, **kw)
+    st = STORED_ROUTES.setdefault(route, [0, 0])
+    st[0] += 1
+    st[1] += int(c.nnz > int(np.count_nonzero(~is_fill)))
+    return c, route
+
+
+def as_format(d, fmt, stored=None, fill=None):
+    """dense -> COO / GCXS / DOK; with `stored` (an rng) the operand explicitly stores some elements equal to its fill value"""
+    import sparse
+
+    if stored is not None:
+        c, _ = store_fill(d, stored, fill=fill)
+    else:
+        c = sparse.COO.from_numpy(d) if fill is None else sparse.COO.from_numpy(d, fill_value=fill)
     if fmt == "COO":
         return c
     if fmt == "GCXS":
@@ -436,11 +498,14 @@ def fmt_json(f):
     return f if f in ("coo", "dok") else {"gcxs": [int(a) for a in f[1]]}
 
 
-def build(d, f, fill=None):
-    """dense -> array of format `f` ('coo' | 'dok' | ('gcxs', compressed_axes))"""
+def build(d, f, fill=None, stored=None):
+    """dense -> array of format `f` ('coo' | 'dok' | ('gcxs', compressed_axes)); `stored` (an rng): with explicitly stored fill values"""
     import sparse
 
-    c = sparse.COO.from_numpy(d) if fill is None else sparse.COO.from_numpy(d, fill_value=fill)
+    if stored is not None:
+        c, _ = store_fill(d, stored, fill=fill)
+    else:
+        c = sparse.COO.from_numpy(d) if fill is None else sparse.COO.from_numpy(d, fill_value=fill)
     if f == "coo":
         return c
     if f == "dok":
@@ -683,18 +748,24 @@ def leg_c(ctx, rng, rounds):
     for it in range(rounds):
         d = make(rng)
         e = make(rng)
+        # every second round the sparse operands explicitly STORE some elements equal to the fill value (see `store_fill`)
+        sf = rng if it % 2 == 1 else None
+        operand = "stored-fill" if sf is not None else "pruned"
+
+        def mk(dense, cn_, _sf=sf):
+            return as_format(dense, cn_, stored=_sf)
         for cn in CLASSES:
-            x, y = as_format(d, cn), as_format(e, cn)
+            x, y = mk(d, cn), mk(e, cn)
             xp = x.__array_namespace__()
-            base = {"class": cn, "x": d.tolist()}
+            base = {"class": cn, "x": d.tolist(), "operand": operand}
             # ---- reductions: method, namespace, NumPy function, Array-API namespace, ufunc.reduce --------------------------------
             if cn != "DOK":
                 for name, uf in REDUCTIONS.items():
                     for axis in (None, 0, 1, (0, 1)):
                         for keepdims in (False, True):
                             dd, xx = (d != 0, x != 0) if name in ("any", "all") else (d, x)
-                            if name in ("any", "all") and cn != "COO":
-                                xx = as_format(dd, cn)
+                            if name in ("any", "all") and (cn != "COO" or sf is not None):
+                                xx = mk(dd, cn)
                             sp_ = {
                                 "method": lambda: getattr(xx, name)(axis=axis, keepdims=keepdims),
                                 "sparse.f": lambda: getattr(sparse, name)(xx, axis=axis, keepdims=keepdims),
@@ -756,7 +827,7 @@ def leg_c(ctx, rng, rounds):
                             splr["x.__rop__(y)"] = lambda: getattr(x, rdun)(py)
                         agree(ctx, f"C:binary-reflected:{name}:{kind}", c, splr, lambda: uf(pd, d), must_be_sparse=not dense_ok)
             di, ei = d.astype(np.int64), (np.abs(e) % 3).astype(np.int64)
-            xi, yi = as_format(di, cn), as_format(ei, cn)
+            xi, yi = mk(di, cn), mk(ei, cn)
             for name, opf, dun, rdun in INT_BINARY:
                 uf = getattr(np, NPNAME.get(name, name))
                 for kind, py, pd in [("sparse", yi, ei), ("scalar", 1, 1)]:
@@ -769,7 +840,7 @@ def leg_c(ctx, rng, rounds):
             # ---- products ---------------------------------------------------------------------------------------------------
             if cn != "DOK":
                 et = e.T.copy()
-                for kind, py, pd in [("sparse", as_format(et, cn), et), ("ndarray", et, et), ("scipy", sp.csr_matrix(et), et)]:
+                for kind, py, pd in [("sparse", mk(et, cn), et), ("ndarray", et, et), ("scipy", sp.csr_matrix(et), et)]:
                     c = dict(base, op="matmul", partner=kind, y=et.tolist())
                     spl = {"x @ y": lambda: x @ py, "np.matmul": lambda: np.matmul(x, py), "sparse.matmul": lambda: sparse.matmul(x, py),
                            "xp.matmul": lambda: xp.matmul(x, py), "x.__matmul__": lambda: x.__matmul__(py), "np.dot": lambda: np.dot(x, py),
@@ -784,8 +855,8 @@ def leg_c(ctx, rng, rounds):
                             "sparse.matmul(y, x)": lambda: sparse.matmul(py.T, x), "np.dot(y, x)": lambda: np.dot(py.T, x)},
                             lambda: pd.T @ d, must_be_sparse=False)
                 agree(ctx, "C:tensordot", dict(base, op="tensordot", y=et.tolist()), {
-                    "np.tensordot": lambda: np.tensordot(x, as_format(et, cn), axes=1), "sparse.tensordot": lambda: sparse.tensordot(x, as_format(et, cn), axes=1),
-                    "xp.tensordot": lambda: xp.tensordot(x, as_format(et, cn), axes=1)}, lambda: np.tensordot(d, et, axes=1))
+                    "np.tensordot": lambda: np.tensordot(x, mk(et, cn), axes=1), "sparse.tensordot": lambda: sparse.tensordot(x, mk(et, cn), axes=1),
+                    "xp.tensordot": lambda: xp.tensordot(x, mk(et, cn), axes=1)}, lambda: np.tensordot(d, et, axes=1))
             # ---- shape and conversion operations with several spellings ---------------------------------------------------------
             tgt = (4, 3) if it % 2 else (2, 6)
             shape_spellings = {"method": lambda: x.reshape(tgt), "sparse.reshape": lambda: sparse.reshape(x, tgt), "np.reshape": lambda: np.reshape(x, tgt),
@@ -812,7 +883,7 @@ def leg_c(ctx, rng, rounds):
                     "np.clip(a_min=)": lambda: np.clip(x, a_min=-1, a_max=2)}, lambda: np.clip(d, -1, 2))
             if cn == "COO":
                 d1 = d[:, :1]
-                x1 = as_format(d1, cn)
+                x1 = mk(d1, cn)
                 agree(ctx, "C:shape:squeeze", dict(base, op="squeeze", x=d1.tolist()), {
                     "method": lambda: x1.squeeze(1), "method(kw)": lambda: x1.squeeze(axis=1), "sparse.squeeze": lambda: sparse.squeeze(x1, 1),
                     "sparse.squeeze(kw)": lambda: sparse.squeeze(x1, axis=1), "np.squeeze": lambda: np.squeeze(x1, 1), "np.squeeze(kw)": lambda: np.squeeze(x1, axis=1),
@@ -825,11 +896,15 @@ def leg_c(ctx, rng, rounds):
                     "method": lambda: x.nonzero(), "sparse.nonzero": lambda: sparse.nonzero(x), "np.nonzero": lambda: np.nonzero(x),
                     "xp.nonzero": lambda: xp.nonzero(x), "sparse.where(x)": lambda: sparse.where(x), "np.where(x)": lambda: np.where(x)},
                     lambda: np.nonzero(d))
-        leg_c_outer(ctx, rng)
-        leg_c_nonfinite_fill(ctx, rng)
-        if it % 4 == 0:
-            leg_c_divmod(ctx, rng)
-            leg_c_inplace(ctx, rng)
+        import time as _t
+        secs = ctx.notes.setdefault("leg_c_seconds", {})
+        for nm_, th_ in (("outer", lambda: leg_c_outer(ctx, rng, sf)), ("nonfinite-fill", lambda: leg_c_nonfinite_fill(ctx, rng, sf)),
+                         ("nonzero-family", lambda: leg_c_nonzero_family(ctx, rng)),
+                         ("divmod", lambda: leg_c_divmod(ctx, rng, sf) if it % 6 in (0, 1) else None),
+                         ("inplace", lambda: leg_c_inplace(ctx, rng, sf) if it % 6 in (0, 1) else None)):
+            t0_ = _t.time()
+            th_()
+            secs[nm_] = round(secs.get(nm_, 0.0) + _t.time() - t0_, 2)
         if it % 10 == 0:
             core.log(f"C17 leg C {it}/{rounds}")
 
@@ -839,7 +914,7 @@ OUTER_UFUNCS = [("subtract", operator.sub, "float"), ("greater", operator.gt, "f
                 ("multiply", operator.mul, "float")]
 
 
-def leg_c_outer(ctx, rng):
+def leg_c_outer(ctx, rng, stored=None):
     """ufunc.outer(x, y) — through __array_ufunc__(…, "outer", …) — against the operator spelling x[..., None] op y and NumPy,
     for NON-commutative ufuncs (operand order is observable), every format, sparse and dense partners"""
     import sparse
@@ -856,9 +931,9 @@ def leg_c_outer(ctx, rng):
             else:
                 d, e = make(rng, shx), make(rng, shy)
             for cn in CLASSES:
-                x, y = as_format(d, cn), as_format(e, cn)
+                x, y = as_format(d, cn, stored=stored), as_format(e, cn, stored=stored)
                 idx = (Ellipsis,) + (None,) * e.ndim
-                c = {"class": cn, "op": name + ".outer", "x": d.tolist(), "y": e.tolist()}
+                c = {"class": cn, "op": name + ".outer", "x": d.tolist(), "y": e.tolist(), "operand": "stored-fill" if stored is not None else "pruned"}
                 spl = {"np.ufunc.outer(x, y)": lambda: uf.outer(x, y), "sparse.ufunc.outer(x, y)": lambda: getattr(sparse, SP_NAME.get(name, name)).outer(x, y)}
                 if name == "multiply":  # a dense partner keeps the result sparse only if func(fill, dense) is constant (C07's mix rule)
                     spl["np.ufunc.outer(x, dense y)"] = lambda: uf.outer(x, e)
@@ -873,7 +948,7 @@ SP_NAME = {"power": "pow", "left_shift": "bitwise_left_shift"}
 FILL_TESTS = ["isinf", "isnan", "isfinite", "isposinf", "isneginf", "sign", "negative", "abs"]
 
 
-def leg_c_nonfinite_fill(ctx, rng):
+def leg_c_nonfinite_fill(ctx, rng, stored=None):
     """element-wise tests and sign functions on operands whose FILL is +inf / -inf / NaN (and 2): every spelling, every format.
     The method / namespace spellings compute the result's fill value themselves; the ufunc spelling gets it from elemwise."""
     import sparse
@@ -885,8 +960,7 @@ def leg_c_nonfinite_fill(ctx, rng):
         vals = rng.choice(np.array([-2.0, 1.0, 3.0, np.inf, -np.inf, np.nan]), size=shp)
         d = np.where(mask, vals, fv)
         for cn in CLASSES:
-            c0 = sparse.COO.from_numpy(d, fill_value=fv)
-            x = c0 if cn == "COO" else sparse.GCXS.from_coo(c0) if cn == "GCXS" else sparse.DOK.from_coo(c0)
+            x = as_format(d, cn, stored=stored, fill=fv)
             xp = x.__array_namespace__()
             for name in FILL_TESTS:
                 npf = getattr(np, {"abs": "absolute"}.get(name, name))
@@ -897,10 +971,96 @@ def leg_c_nonfinite_fill(ctx, rng):
                     spl["abs(x)"] = lambda: abs(x)
                 if name == "negative":
                     spl["-x"] = lambda: -x
-                agree(ctx, f"C:fill:{name}", {"class": cn, "op": name, "fill": fk, "x": d.tolist()}, spl, lambda: npf(d))
+                agree(ctx, f"C:fill:{name}", {"class": cn, "op": name, "fill": fk, "x": d.tolist(), "operand": "stored-fill" if stored is not None else "pruned"},
+                      spl, lambda: npf(d))
 
 
-def leg_c_divmod(ctx, rng):
+NONZERO_ROUTES = ["pruned", "prune=False", "duplicates", "scipy", "gcxs-triple", "random"]
+
+
+def leg_c_nonzero_family(ctx, rng):
+    """'where are the non-zero elements' in every spelling — x.nonzero(), sparse.nonzero(x), np.nonzero(x), xp.nonzero(x), the
+    one-argument sparse.where(x) / np.where(x) / xp.where(x), np.argwhere(x) / sparse.argwhere(x), the truth reductions any/all,
+    np.count_nonzero — compared with each other and with NumPy on the densified operand, for every format, 1-d/2-d/3-d, float /
+    int / bool data, and for every constructor route that can leave an explicitly STORED ZERO in the operand (and the pruned
+    one).  `x.nnz` counts stored elements and is not claimed to be the number of non-zeros.  On a non-zero fill value each
+    spelling must raise ValueError or give NumPy's answer."""
+    import sparse
+
+    for shape in ((6,), (3, 4), (2, 3, 2)):
+        for dtype in (np.float64, np.int64, np.bool_):
+            for route in NONZERO_ROUTES:
+                if route == "random":
+                    if dtype is np.bool_:
+                        continue
+                    c = sparse.random(shape, density=0.6, random_state=int(rng.integers(0, 2**31)),
+                                      data_rvs=lambda n, _r=rng, _t=dtype: _r.integers(-1, 2, size=n).astype(_t))
+                    d = c.todense()
+                    used = route
+                elif route == "pruned":
+                    d = make(rng, shape).astype(dtype)
+                    c, used = sparse.COO.from_numpy(d), route
+                else:
+                    d = make(rng, shape).astype(dtype)
+                    c, used = store_fill(d, rng, route=route)
+                    if used != route:
+                        continue  # the route is not available for this rank / dtype
+                for cn in CLASSES:
+                    x = c if cn == "COO" else sparse.GCXS.from_coo(c) if cn == "GCXS" else sparse.DOK.from_coo(c)
+                    xp = x.__array_namespace__()
+                    base = {"class": cn, "route": used, "dtype": np.dtype(dtype).name, "x": d.tolist(), "stored": int(x.nnz), "nonzero": int(np.count_nonzero(d))}
+                    spl = {"sparse.nonzero(x)": lambda: sparse.nonzero(x), "np.nonzero(x)": lambda: np.nonzero(x), "xp.nonzero(x)": lambda: xp.nonzero(x),
+                           "sparse.where(x)": lambda: sparse.where(x), "np.where(x)": lambda: np.where(x), "xp.where(x)": lambda: xp.where(x),
+                           "np.argwhere(x).T": lambda: tuple(np.asarray(dense_of(np.argwhere(x))).T),
+                           "sparse.argwhere(x).T": lambda: tuple(np.asarray(dense_of(sparse.argwhere(x))).T)}
+                    if hasattr(type(x), "nonzero"):
+                        spl["x.nonzero()"] = lambda: x.nonzero()
+                    agree(ctx, "C:nonzero-family:nonzero", dict(base, op="nonzero"), spl, lambda: np.nonzero(d), must_be_sparse=False)
+                    agree(ctx, "C:nonzero-family:argwhere", dict(base, op="argwhere"), {
+                        "np.argwhere(x)": lambda: np.argwhere(x), "sparse.argwhere(x)": lambda: sparse.argwhere(x)}, lambda: np.argwhere(d), must_be_sparse=False)
+                    # np.count_nonzero: the library does not implement it — TypeError is fine, a number must be NumPy's
+                    v, err = call(lambda: np.count_nonzero(x))
+                    cc = dict(base, op="count_nonzero")
+                    ctx.case("C:nonzero-family:count", cc, nontrivial=True)
+                    if (err is not None and not isinstance(err, TypeError)) or (err is None and not same(v, np.count_nonzero(d))):
+                        msg = f"np.count_nonzero(x) gives {v!r} / {err!r}, NumPy counts {np.count_nonzero(d)}"
+                        ctx.fail("C", "nonzero-family:count", cc, msg, finding=findings.classify(PID, "nonzero-family:count", cc, msg))
+                    if cn != "DOK":
+                        for name in ("any", "all"):
+                            for axis in (None, 0):
+                                agree(ctx, f"C:nonzero-family:{name}", dict(base, op=name, axis=axis), {
+                                    "x.f()": lambda: getattr(x, name)(axis=axis), "np.f(x)": lambda: getattr(np, name)(x, axis=axis),
+                                    "sparse.f(x)": lambda: getattr(sparse, name)(x, axis=axis), "xp.f(x)": lambda: getattr(xp, name)(x, axis=axis),
+                                    "ufunc.reduce": lambda: (np.logical_or if name == "any" else np.logical_and).reduce(x, axis=axis)},
+                                    lambda: getattr(np, name)(d, axis=axis))
+    # a non-zero fill value: every spelling refuses (ValueError) or agrees with NumPy; explicitly stored fill values and stored zeros
+    for shape in ((3, 4),):
+        d = make(rng, shape)
+        d = np.where(d == 0, 2.0, d)
+        d.flat[int(rng.integers(0, d.size))] = 0.0  # a genuine zero element, stored
+        for stored in (None, rng):
+            for cn in CLASSES:
+                x = as_format(d, cn, stored=stored, fill=2.0)
+                xp = x.__array_namespace__()
+                spl = {"sparse.nonzero(x)": lambda: sparse.nonzero(x), "np.nonzero(x)": lambda: np.nonzero(x), "xp.nonzero(x)": lambda: xp.nonzero(x),
+                       "sparse.where(x)": lambda: sparse.where(x), "np.where(x)": lambda: np.where(x), "xp.where(x)": lambda: xp.where(x),
+                       "np.argwhere(x).T": lambda: tuple(np.asarray(dense_of(np.argwhere(x))).T),
+                       "sparse.argwhere(x).T": lambda: tuple(np.asarray(dense_of(sparse.argwhere(x))).T)}
+                if hasattr(type(x), "nonzero"):
+                    spl["x.nonzero()"] = lambda: x.nonzero()
+                for name, th in spl.items():
+                    case = {"class": cn, "fill": 2.0, "operand": "stored-fill" if stored is not None else "pruned", "spelling": name, "x": d.tolist()}
+                    ctx.case("C:nonzero-family:fill", case, nontrivial=True)
+                    v, err = call(th)
+                    if err is not None and isinstance(err, ValueError):
+                        continue
+                    if err is not None or not same(v, np.nonzero(d)):
+                        msg = (f"{name} on fill value 2 raised {type(err).__name__}: {str(err)[:100]}" if err is not None else
+                               f"{name} on fill value 2 returned {[np.asarray(t).tolist() for t in v]!r:.120}, NumPy {[t.tolist() for t in np.nonzero(d)]!r:.120}")
+                        ctx.fail("C", "nonzero-family:fill", case, msg, finding=findings.classify(PID, "nonzero-family:fill", case, msg))
+
+
+def leg_c_divmod(ctx, rng, stored=None):
     """ufuncs with several results.  `divmod(x, y)`, `x.__divmod__(y)`, `np.divmod(x, y)`, the pairs `(np.floor_divide, np.remainder)`
     and `(x // y, x % y)` — and the reflected spellings — agree with each other and with NumPy for every format and for scalar /
     ndarray / sparse second operands; `np.modf(x)`, `np.frexp(x)` and `np.divmod(x, y, out=…)` are rejected with TypeError and
@@ -912,12 +1072,12 @@ def leg_c_divmod(ctx, rng):
         e = make(rng, dtype=dtype)
         nz = np.where(e == 0, 2, e).astype(dtype)
         for f in FORMATS_2D:
-            x = build(d, f)
+            x = build(d, f, stored=stored)
             partners = [("scalar", dtype(2), dtype(2)), ("scalar-negative", dtype(-3), dtype(-3)), ("ndarray", nz, nz), ("sparse", build(nz, f), nz),
-                        ("sparse-with-zeros", build(e, f), e), ("ndarray-broadcast", nz[0], nz[0]), ("python-scalar", 2, 2)]
+                        ("sparse-with-zeros", build(e, f, stored=stored), e), ("ndarray-broadcast", nz[0], nz[0]), ("python-scalar", 2, 2)]
             for kind, py, pd in partners:
                 base = {"class": type(x).__name__, "format": fmt_name(f), "op": "divmod", "partner": kind, "dtype": np.dtype(dtype).name,
-                        "x": d.tolist(), "y": np.asarray(pd).tolist()}
+                        "x": d.tolist(), "y": np.asarray(pd).tolist(), "operand": "stored-fill" if stored is not None else "pruned"}
                 dense_partner = kind.startswith("ndarray")
                 spl = {"divmod(x, y)": lambda: divmod(x, py), "x.__divmod__(y)": lambda: x.__divmod__(py), "np.divmod(x, y)": lambda: np.divmod(x, py),
                        "(np.floor_divide(x, y), np.remainder(x, y))": lambda: (np.floor_divide(x, py), np.remainder(x, py)),
@@ -1004,14 +1164,17 @@ def working_array(t, want, f_orig, cls_orig):
     return None
 
 
-def leg_c_inplace(ctx, rng):
+def leg_c_inplace(ctx, rng, stored=None):
     """in-place operators and out= across EVERY ordered pair of formats (COO, GCXS with each compressed axes, DOK): `a op= b`,
     `np.<ufunc>(a, b, out=a)`, `np.<ufunc>(a, b, out=(c,))` with c of every format.  Afterwards the target is the same object, of
     its original class, a working array (todense, follow-up operations, asformat round trip, copy) equal to NumPy's result, the
     other operands are unchanged — or the call raised ValueError/TypeError (then NumPy must not have computed a result that could
     be stored) and the target is unchanged."""
+    def bld(dense, f):
+        return build(dense, f, stored=stored)
+    operand = "stored-fill" if stored is not None else "pruned"
     shapes = [((3, 4), FORMATS_2D)]
-    if not ctx.quick or ctx.seed % 3 == 0:
+    if not ctx.quick or (ctx.seed % 3 == 0 and stored is None):
         shapes.append(((2, 3, 2), FORMATS_3D))
     ops = INPLACE if ctx.quick else INPLACE + INPLACE_MORE
     for shape, formats in shapes:
@@ -1025,10 +1188,10 @@ def leg_c_inplace(ctx, rng):
                     for partner in ("sparse", "scalar"):
                         if partner == "scalar" and (fb != formats[0] or name in ("iadd", "isub")):
                             continue  # the scalar partner does not depend on fb; x += 2 has a non-zero fill (C07's business)
-                        a, b = build(d, fa), (build(e_use, fb) if partner == "sparse" else 2.0)
+                        a, b = bld(d, fa), (bld(e_use, fb) if partner == "sparse" else 2.0)
                         pd = e_use if partner == "sparse" else 2.0
                         cls0 = type(a)
-                        case = {"op": name, "target": fmt_name(fa), "other": fmt_name(fb) if partner == "sparse" else "scalar", "shape": list(shape),
+                        case = {"op": name, "target": fmt_name(fa), "other": fmt_name(fb) if partner == "sparse" else "scalar", "shape": list(shape), "operand": operand,
                                 "x": d.tolist(), "y": np.asarray(pd).tolist()}
                         want, ref_err = call(lambda: opf(d.copy(), pd))
                         r, err = call(lambda: opf(a, b))
@@ -1036,16 +1199,16 @@ def leg_c_inplace(ctx, rng):
                                      others=[(b, e_use, fb)] if partner == "sparse" else [])
                 # ---- np.add(a, b, out=a) and out=(c,) ----------------------------------------------------------------------------
                 for uf in (np.add, np.multiply):
-                    a, b = build(d, fa), build(e, fb)
+                    a, b = bld(d, fa), bld(e, fb)
                     cls0 = type(a)
-                    case = {"op": f"np.{uf.__name__}(a, b, out=a)", "target": fmt_name(fa), "other": fmt_name(fb), "shape": list(shape),
+                    case = {"op": f"np.{uf.__name__}(a, b, out=a)", "target": fmt_name(fa), "other": fmt_name(fb), "shape": list(shape), "operand": operand,
                             "x": d.tolist(), "y": e.tolist()}
                     r, err = call(lambda: uf(a, b, out=a))
                     check_target(ctx, "C:out", case, a, r, err, uf(d, e), None, d, fa, cls0, others=[(b, e, fb)])
                     for fc in formats:
-                        a, b, c = build(d, fa), build(e, fb), build(np.ones(shape), fc)
+                        a, b, c = bld(d, fa), bld(e, fb), bld(np.ones(shape), fc)
                         cls0 = type(c)
-                        case = {"op": f"np.{uf.__name__}(a, b, out=(c,))", "a": fmt_name(fa), "b": fmt_name(fb), "target": fmt_name(fc), "shape": list(shape),
+                        case = {"op": f"np.{uf.__name__}(a, b, out=(c,))", "a": fmt_name(fa), "b": fmt_name(fb), "target": fmt_name(fc), "shape": list(shape), "operand": operand,
                                 "x": d.tolist(), "y": e.tolist()}
                         r, err = call(lambda: uf(a, b, out=(c,)))
                         check_target(ctx, "C:out", case, c, r, err, uf(d, e), None, np.ones(shape), fc, cls0, others=[(a, d, fa), (b, e, fb)])
@@ -1057,9 +1220,9 @@ def leg_c_inplace(ctx, rng):
                 for rep in range(2 if ctx.quick else 6):
                     junk = -np.ones(1 + rep, dtype=np.int64)  # negative leftovers for a later np.empty((1,), int64) to find
                     del junk
-                    a, b = build(di, fa), build(ei, fb)
+                    a, b = bld(di, fa), bld(ei, fb)
                     cls0 = type(a)
-                    case = {"op": "ipow", "dtype": "int64", "target": fmt_name(fa), "other": fmt_name(fb), "shape": list(shape), "x": di.tolist(), "y": ei.tolist()}
+                    case = {"op": "ipow", "dtype": "int64", "target": fmt_name(fa), "other": fmt_name(fb), "shape": list(shape), "operand": operand, "x": di.tolist(), "y": ei.tolist()}
                     want, ref_err = call(lambda: operator.ipow(di.copy(), ei))
                     r, err = call(lambda: operator.ipow(a, b))
                     check_target(ctx, "C:inplace", case, a, r, err, want, ref_err, di, fa, cls0, others=[(b, ei, fb)])
@@ -1067,15 +1230,15 @@ def leg_c_inplace(ctx, rng):
         di = d.astype(np.int64)
         for fa in formats:
             for fb in formats[:2] + formats[-1:]:
-                a, b = build(di, fa), build(e + 0.5, fb)
+                a, b = bld(di, fa), bld(e + 0.5, fb)
                 cls0 = type(a)
-                case = {"op": "int64 target += float64", "target": fmt_name(fa), "other": fmt_name(fb), "shape": list(shape), "x": di.tolist(), "y": (e + 0.5).tolist()}
+                case = {"op": "int64 target += float64", "target": fmt_name(fa), "other": fmt_name(fb), "shape": list(shape), "operand": operand, "x": di.tolist(), "y": (e + 0.5).tolist()}
                 want, ref_err = call(lambda: operator.iadd(di.copy(), e + 0.5))
                 r, err = call(lambda: operator.iadd(a, b))
                 check_target(ctx, "C:inplace-rejected", case, a, r, err, want, ref_err, di, fa, cls0, others=[(b, e + 0.5, fb)])
-                a, c = build(d, fa), build(np.ones(shape[:-1] + (shape[-1] + 1,)), fb)
+                a, c = bld(d, fa), bld(np.ones(shape[:-1] + (shape[-1] + 1,)), fb)
                 cls0 = type(c)
-                case = {"op": "np.add(a, a, out=(c,)) with c of another shape", "a": fmt_name(fa), "target": fmt_name(fb), "shape": list(shape), "x": d.tolist()}
+                case = {"op": "np.add(a, a, out=(c,)) with c of another shape", "a": fmt_name(fa), "target": fmt_name(fb), "shape": list(shape), "operand": operand, "x": d.tolist()}
                 want, ref_err = call(lambda: np.add(d, d, out=np.ones(shape[:-1] + (shape[-1] + 1,))))
                 r, err = call(lambda: np.add(a, a, out=(c,)))
                 check_target(ctx, "C:inplace-rejected", case, c, r, err, want, ref_err, np.ones(shape[:-1] + (shape[-1] + 1,)), fb, cls0, others=[(a, d, fa)])
@@ -1310,6 +1473,7 @@ def run(ctx):
     leg_c(ctx, rng, 2 if ctx.quick else 120)
     leg_c_numpy_style(ctx, violations, table)
     leg_c_unimplemented(ctx, table)
+    ctx.notes["stored_fill_routes"] = {k: {"built": v[0], "carry_a_stored_fill_value": v[1]} for k, v in sorted(STORED_ROUTES.items())}
     ctx.cov["rule"] = ("T1: every row of the generated dispatch table against introspection and recorded forwarding calls; leg A: the lookup model "
                        "against __array_function__ for every array-function-dispatched NumPy function x {COO,GCXS,DOK} x argument shapes "
                        "(1,0),(2,0),(1,1), the ufunc routing, every NumPy-parameter probe against Signature.bind; leg C: every operation "
